@@ -16,9 +16,9 @@ from regexlib import gen_tables
 
 
 def main(ctx, args):
-    nlines = sum(13 ** i for i in range(0, 3 + 1)) if ctx.quick else sum(13 ** i for i in range(0, 4 + 1))
+    nlines = sum(14 ** i for i in range(0, 3 + 1)) if ctx.quick else sum(14 ** i for i in range(0, 4 + 1))
     cases, info = line_tables(ctx, nlines, 3 if ctx.quick else 5)
-    n20 = sum(20 ** i for i in range(0, 2 + 1)) if ctx.quick else sum(20 ** i for i in range(0, 3 + 1))
+    n20 = sum(21 ** i for i in range(0, 2 + 1)) if ctx.quick else sum(21 ** i for i in range(0, 3 + 1))
     mcases, _ = line_tables(ctx, n20, 2, mode="marks")
     mcases += mark_tables(ctx, 30)          # all 30 option combinations
     results = run_lines(ctx, cases + mcases)
@@ -72,7 +72,7 @@ def main(ctx, args):
                           {"line": c["line"], "at": c["at"], "expected": c["want"], "got": got["shape"]}, {"kind": "shape"})
     samples.append({"shaping_contexts": st["shape_cases"], "example": {"line": ["U+%04X" % x for x in scases[100]["line"]], "shaped": "U+%04X" % scases[100]["want"]}})
     cov = {"evaluations": st["lines"] + st["shape_cases"], "distinct_nontrivial": st["with_runs"] + st["shaped"],
-           "rule": "lines = all of <= 3 (4) characters over 13 class representatives under 3 (5) option combinations each, plus all lines of "
+           "rule": "lines = all of <= 3 (4) characters over 14 class representatives under 3 (5) option combinations each, plus all lines of "
                    "<= 2 (3) characters over those and the mark characters $ \\ { } [ ] * and 16 longer lines with nested marks in both base "
                    "directions (order compared with the operational definition Bidi!ReorderOp); shaping = 45 letters x 10 x 10 "
                    "neighbours x 3 diacritic settings; non-trivial = a line with a reversed run / a letter that takes a presentation form",
